@@ -93,15 +93,23 @@ def dedupNodes (l : List Nat) : List Nat :=
 def BuildGraph.isTargetAt (g : BuildGraph) (i : Nat) : Bool :=
   match g.nodes[i]? with | some n => n.isTarget | none => false
 
+/-- the nodes `grog changes` collects before filtering: owners of the changed files, with `transitive` also all
+    their descendants that are targets (one `GetDescendants` per owner, each with its own visited set, none of
+    which depends on the `--target-type` / tag filter), de-duplicated (`uniqueLabels`) -/
+def changesNodes (g : BuildGraph) (inputs : Nat → List Bytes) (files : List Bytes) (transitive : Bool) : List Nat :=
+  let owners := ownersOf g inputs files
+  dedupNodes (if transitive then
+      owners.flatMap (fun o => o :: (descendantsV g.edges o).nodes.filter g.isTargetAt)
+    else owners)
+
 /-- `grog changes --since=… --dependents=none|transitive` after the changed files have been determined
-    (package definition files unchanged): owners of the changed files, with `transitive` also all their
-    descendants that are targets; de-duplicated, filtered, printed sorted. -/
+    (package definition files unchanged): collect, then filter (`FilterNodes`), then print sorted. -/
 def changesCmd (g : BuildGraph) (s : Selector) (h : Host) (inputs : Nat → List Bytes) (files : List Bytes)
     (transitive : Bool) : List Bytes :=
-  let owners := ownersOf g inputs files
-  let res := if transitive then
-      owners.flatMap (fun o => o :: (descendantsV g.edges o).nodes.filter g.isTargetAt)
-    else owners
-  printSorted g ((dedupNodes res).filter (g.matchAt s h))
+  printSorted g ((changesNodes g inputs files transitive).filter (g.matchAt s h))
+
+/-- traversal steps of `grog changes --dependents=transitive`: one `GetDescendants` per owner -/
+def changesCost (g : BuildGraph) (inputs : Nat → List Bytes) (files : List Bytes) : Nat :=
+  ((ownersOf g inputs files).map (fun o => (descendantsV g.edges o).cost)).sum
 
 end Grog
